@@ -102,7 +102,7 @@ Definition quad_out (q : quad) : bytes :=
   (match q_g q with Some g => term_out g | None => NONE end).
 
 Definition verdict_out (v : verdict) : bytes :=
-  match v with VOk => s2b "ok" | VSyntax => s2b "syntax" | VIo => s2b "io" end.
+  match v with VOk => s2b "ok" | VSyntax => s2b "syntax" | VIo => s2b "io" | VFuel => s2b "!fuel" end.
 
 (* statements with the ranges of their terms (subject, predicate, object[, graph]) *)
 Fixpoint stmts_out (p : pos) (l : list stmt) (with_ranges : bool) : list bytes :=
